@@ -180,11 +180,14 @@ CHECKS = {
                  "by a schema-level oracle (generated schema + elementary edit + reverse edit) on the real diff_schema. "
                  "diff_schema itself is modelled in Lean (Diff.lean) with theorems diff_refl (all schemas with unique names), "
                  "removed/retyped elements reported as BREAKING, nobreaking_args_permissive (semantic, full), "
-                 "nobreaking_fields_strict_partial (list-free types; G1), min_severity_filters; the model is compared with the real "
+                 "nobreaking_fields_strict_partial (list-free types; G1), min_severity_filters, and the schema-shape half of 'operations valid on the old schema stay "
+                 "valid': nobreaking_types_kept / kinds_kept / fields_kept / arguments_kept / no_new_required_argument / enum_values_kept / union_members_kept / "
+                 "input_fields (kept, at least as permissive, no new required one); the model is compared with the real "
                  "diff_schema on every generated schema pair (multiset of class, severity, identifying attributes)."),
         "note": ("Trusted: Lean kernel; py2lean translator; reference semantics of type expressions on abstract values "
                  "(accepts); generators. diff_schema's traversal is hand-modelled and tied by correspondence (not re-translated); "
-                 "'every operation valid on old stays valid' is explored only at type-position level."),
+                 "'every operation valid on old stays valid' is proved at schema-shape level and explored with sampled valid operations (gen/operation.py) "
+                 "re-validated on the new schema; code-built enums (internal values != names) and diff/clone/transform histories are exercised by the oracle."),
         "technique": "Lean 4 proof over source-translated predicates + exhaustive small-scope correspondence + edit oracle",
     },
 }
